@@ -503,6 +503,7 @@ func c07One(c *Ctx, m *Model, cs c07Case) {
 		w.tver[t] = 0
 	}
 	fdb, conn := newFakeDB()
+	fdb.declaredUpper = cs.Seed%2 == 1 // finding C07-5: column names are not case sensitive in MySQL
 	w.fdb = fdb
 	tablesEnc := []interface{}{}
 	for t, name := range c07Tables {
@@ -1199,6 +1200,9 @@ func runC07(c *Ctx) error {
 		return err
 	}
 	defer m.Close()
+	if c.Replay == "" {
+		kfReproC07(c.Rep)
+	}
 	c.Rep.Rule = "random histories on a real livesql.LiveDB over the fake SQL driver and a livesql.Binlog fed in-process: 1-4 live queries (LiveDB.Query, LiveDB.QueryRow whose caller carries on after 'no row' / 'several rows', or AddDependency + plain read; two tables; filters over id / a (nullable pointer, nil filters) / b / s / p (an implicitnull column: 0 selects the NULLs, carried as int64, int or a named type) / t,u (strings with blanks: argument lists that print alike, in one rerunner) / y (a blob that may be empty) in several Go representations; alone or sharing a rerunner so that reruns hit the reactive cache) x 4-24 operations (InsertRow, UpsertRow, UpdateRow, DeleteRow, InsertRows, UpsertRows; events handed to the poll loop late, in bursts, between registration and read; events in go-mysql's typed representation with varying integer widths and []byte strings; undecodable events: column count, type mismatch, odd update; noise: other schema, unknown table, table map with a new id, other event types; the columns of a table change their order, announced by a table map event with a new id, later events in the new order); after writes stop, each live query's rows are compared with the database's answer (the property), every tracked event must reach the tracker, and the linearised log (write / register / read / deliver) is replayed in the Lean model: accepted, same events, same invalidated queries per delivery, quiescent, same rows"
 	c.Rep.Assumptions = append(c.Rep.Assumptions,
 		"the change log carries the before / after images of exactly the rows a statement changed (MySQL row-based replication with full row images; here: the fake database)",
